@@ -227,7 +227,7 @@ fn load_comments<R: Read + std::io::Seek>(
             let text = comment
                 .descendants()
                 .filter(|n| n.has_tag_name("t"))
-                .map(|n| n.text().unwrap().to_string())
+                .map(|n| n.text().unwrap_or_default().to_string())
                 .collect::<Vec<String>>()
                 .join("");
             let cell_ref = get_attribute(&comment, "ref")?.to_string();
@@ -586,6 +586,9 @@ fn load_sheet_rels<R: Read + std::io::Seek>(
         if t.ends_with("comments") {
             let mut target = get_attribute(&rel, "Target")?.to_string();
             // Target="../comments1.xlsx"
+            if !target.is_char_boundary(2) {
+                return Err(XlsxError::Xml("Corrupt XML structure".to_string()));
+            }
             target.replace_range(..2, v[0]);
             comments = load_comments(archive, &target)?;
         } else if t.ends_with("hyperlink") {
@@ -599,6 +602,9 @@ fn load_sheet_rels<R: Read + std::io::Seek>(
                 p.to_string()
             } else {
                 // Target="../table1.xlsx"
+                if !target.is_char_boundary(2) {
+                    return Err(XlsxError::Xml("Corrupt XML structure".to_string()));
+                }
                 target.replace_range(..2, v[0]);
                 target
             };
